@@ -207,7 +207,7 @@ def handle (line : String) : String :=
     (match srcOf src, (ops.splitOn ",").mapM opOf with
      | some s, some ops => opsReply s ops
      | _, _ => "badreq")
-  | "judge" :: rest => Judges.handle rest
+  | "spec" :: rest => Judges.handle rest
   | _ => "badreq"
 
 partial def loop (hin hout : IO.FS.Stream) : IO Unit := do
